@@ -387,7 +387,7 @@ _install()
 @contract
 class node_satisfy(Contract):
     fn = appv2.InterestTreeNode.satisfy
-    props = ('C03',)
+    props = ('C03', 'C05')
     doc = ('InterestTreeNode.satisfy(data, is_prefix), pending list of ANY length: validation (PendingIntEntry.satisfy) is started for '
            'exactly the entries the Data can answer - can_be_prefix or exact name, and digest equal when the Interest carried one - '
            'once each, with this Data; when some entry does not pass, exactly the non-passing entries stay pending, in order, and '
